@@ -82,6 +82,60 @@ def is_abstract(fn):
     return "abstractmethod" in decorators(fn)
 
 
+def fold_single_use_temporaries(tree):
+    """Canonical form: `t = <expr>` immediately followed by `return t` / `<target> = t` / `<target> op= t` is read as
+    the one statement `return <expr>` / `<target> = <expr>` when every occurrence of `t` in the function is part of such
+    a pair (so `t` is nothing but a name for the value on its way to the next statement). Splitting a statement in two
+    (or merging the two) therefore cannot change what any rule sees. Returns the number of folds."""
+    n_folds = 0
+    for fn in [n for n in ast.walk(tree) if isinstance(n, (ast.FunctionDef, ast.AsyncFunctionDef))]:
+        occurrences = {}
+        for x in ast.walk(fn):
+            if isinstance(x, ast.Name):
+                occurrences[x.id] = occurrences.get(x.id, 0) + 1
+        params = {a.arg for a in fn.args.args + fn.args.kwonlyargs + fn.args.posonlyargs}
+        pairs = {}      # name -> [(block, assign stmt, consumer stmt)]
+
+        def is_pair(a, b):
+            if not (isinstance(a, ast.Assign) and len(a.targets) == 1 and isinstance(a.targets[0], ast.Name)):
+                return None
+            t = a.targets[0].id
+            if t in params or any(isinstance(y, ast.Name) and y.id == t for y in ast.walk(a.value)):
+                return None
+            if isinstance(b, ast.Return) and isinstance(b.value, ast.Name) and b.value.id == t:
+                return t
+            if isinstance(b, (ast.Assign, ast.AugAssign)) and isinstance(b.value, ast.Name) and b.value.id == t \
+                    and not any(isinstance(y, ast.Name) and y.id == t for tg in (
+                        b.targets if isinstance(b, ast.Assign) else [b.target]) for y in ast.walk(tg)):
+                return t
+            return None
+
+        def scan(block):
+            for i in range(len(block) - 1):
+                t = is_pair(block[i], block[i + 1])
+                if t is not None:
+                    pairs.setdefault(t, []).append((block, block[i], block[i + 1]))
+            for s_ in block:
+                if isinstance(s_, (ast.FunctionDef, ast.AsyncFunctionDef, ast.ClassDef)):
+                    continue
+                for f in ("body", "orelse", "finalbody"):
+                    sub = getattr(s_, f, None)
+                    if isinstance(sub, list) and sub and isinstance(sub[0], ast.stmt):
+                        scan(sub)
+                if isinstance(s_, ast.Try):
+                    for h in s_.handlers:
+                        scan(h.body)
+        scan(fn.body)
+        for t, ps in pairs.items():
+            if occurrences.get(t) != 2 * len(ps):
+                continue
+            for block, a, b in ps:
+                b.value = a.value
+                block[:] = [s_ for s_ in block if s_ is not a]
+                n_folds += 1
+    return n_folds
+
+
 class ProgramModel:
     def __init__(self, repo=None):
         self.repo = repo or REPO
@@ -125,6 +179,7 @@ class ProgramModel:
                 name = PKG + "." + rel[:-3].replace(os.sep, ".")
                 if name.endswith(".__init__"):
                     name = name[:-9]
+                self.n_temps_folded = getattr(self, "n_temps_folded", 0) + fold_single_use_temporaries(tree)
                 for n in ast.walk(tree):
                     for ch in ast.iter_child_nodes(n):
                         ch._parent = n
@@ -286,7 +341,8 @@ class ProgramModel:
         rets = [s for s in ast.walk(f) if isinstance(s, ast.Return)]
         if len(rets) != 1 or rets[0].value is None:
             raise AnalysisError(f"{owner}.{f.name}: expected exactly one return")
-        return self.eval_str_list(cn, owner, rets[0].value, f.name)
+        from .astutil import fully_expanded     # `result = [...] + super().x; return result`
+        return self.eval_str_list(cn, owner, fully_expanded(rets[0].value, f), f.name)
 
     def calc(self, cn):
         if cn not in self._calc:
@@ -440,6 +496,9 @@ class ProgramModel:
                 if not (isinstance(t, ast.Attribute) and isinstance(t.value, ast.Name) and t.value.id == "self"):
                     continue
                 attr, v = t.attr, n.value
+                if isinstance(v, ast.Name) and v.id not in params:
+                    from .astutil import reaching_value      # `tmp = <expr>; self.a = tmp`
+                    v = reaching_value(n, v.id) or v
                 p = self.root_param(v, params)
                 if isinstance(v, ast.Call) and isinstance(v.func, ast.Name) and v.func.id in (
                         "EmptyExplainableObject", "ExplainableObjectDict") and not v.args:
